@@ -2568,8 +2568,14 @@ def scalarise_records(fn: ast.AST, module_assigns: Dict[str, ast.AST], module_tr
             p = up.get(id(ld))
             if isinstance(p, ast.Call) and isinstance(p.func, ast.Name) and p.func.id == "tuple" and p.args == [ld] and not p.keywords:
                 return True         # tuple(record): the fields in order
-            if isinstance(p, ast.Call) and ld in p.args or isinstance(p, ast.keyword) and p.value is ld and p.arg is not None:
-                return True         # handed on as a whole: a namedtuple is the tuple of its fields
+            call = p if isinstance(p, ast.Call) else (up.get(id(p)) if isinstance(p, ast.keyword) else None)
+            callee = ""
+            if isinstance(call, ast.Call):
+                callee = call.func.id if isinstance(call.func, ast.Name) else (call.func.attr if isinstance(call.func, ast.Attribute) else "")
+            recv_private = isinstance(call, ast.Call) and isinstance(call.func, ast.Attribute) and isinstance(call.func.value, ast.Name) and call.func.value.id.startswith("_")
+            if callee and callee in PINNED_SHORT_NAMES and not recv_private and (isinstance(p, ast.Call) and ld in p.args or isinstance(p, ast.keyword) and p.value is ld and p.arg is not None):
+                return True         # handed on as a whole to a public function: a namedtuple is the tuple of its fields
+                                    # (a private helper may read the fields by name: it is inlined first, then its reads are field reads)
             return isinstance(p, ast.Assign) and p.value is ld and len(p.targets) == 1 and isinstance(p.targets[0], (ast.Tuple, ast.List)) and len(p.targets[0].elts) == len(fields) \
                 and not any(isinstance(x, ast.Starred) for x in p.targets[0].elts)
         if not all(unpacked(ld) or (isinstance(up.get(id(ld)), ast.Attribute) and up[id(ld)].value is ld and up[id(ld)].attr in fields and isinstance(up[id(ld)].ctx, ast.Load)) for ld in loads):
@@ -2705,6 +2711,9 @@ def unfold_reduce(fn: ast.AST, resolve) -> int:
         return out
     fn.body = block(fn.body)
     return count[0]
+
+
+PINNED_SHORT_NAMES: Set[str] = set()      # short names of the functions of the pinned tree (filled by normalize()): they know nothing of records added later
 
 
 PURE_METHODS = {"startswith", "endswith", "isdigit", "isalpha", "isalnum", "lower", "upper", "strip", "lstrip", "rstrip", "get", "keys", "values", "items"}
